@@ -22,7 +22,7 @@ func init() {
 type reqCase struct {
 	ID    string
 	Files []*spec.File
-	Gen   []string // nil = all, in order
+	Gen   []string   // nil = all, in order
 	Extra *spec.File // an unrelated file that may be added
 }
 
@@ -108,6 +108,8 @@ func l1Corpus(c *Ctx, family string, sampleEvery int) []reqCase {
 	out = append(out, reqCase{ID: "types/many", Files: []*spec.File{corpus.ManyTypesFile(family+".mt", family+"mt")}})
 	out = append(out, reqCase{ID: "headers/count", Files: []*spec.File{corpus.HeaderCountFile(family+".hc", family+"hc")}})
 	out = append(out, reqCase{ID: "requests/shared", Files: []*spec.File{corpus.SharedRequestFile(family+".sr", family+"sr")}})
+	out = append(out, reqCase{ID: "routes/same-route-in-two-services/one-file", Files: corpus.SameRouteServices(family+".same1", family+"same1", false)})
+	out = append(out, reqCase{ID: "routes/same-route-in-two-services/two-packages", Files: corpus.SameRouteServices(family+".same2", family+"same2", true)})
 	t, s, u := corpus.MultiFilePackage(family+".multi", family+"multi")
 	out = append(out, reqCase{ID: "multifile/package", Files: []*spec.File{t, s}, Extra: u})
 	out = append(out, reqCase{ID: "multifile/same-package-siblings", Files: corpus.SiblingFiles(family+".sib", family+"sib")})
@@ -386,49 +388,66 @@ func c14(c *Ctx) {
 			c.R.Harness(rc.ID + ": " + err.Error())
 			return
 		}
-		caseID := "interchange/" + rc.ID
-		if !c.Want(caseID) {
-			return
-		}
 		var protos []string
 		for _, f := range rc.Files {
 			protos = append(protos, f.Proto())
 		}
-		h := c.TB.Run("go-http", req, plugin.RunOpt{})
-		cl := c.TB.Run("go-client", req, plugin.RunOpt{})
-		c.R.Eval(2)
-		if !h.OK() || !cl.OK() {
-			if h.OK() != cl.OK() {
-				c.R.Violate(caseID, "plugins-differ", "one plugin refuses", map[string]any{"protos": protos, "http_error": h.Error + h.Crash, "client_error": cl.Error + cl.Crash})
-			} else {
-				c.R.Inconclusive(caseID, "both-refuse")
-			}
-			return
+		// the standard protogen parameters both plugins accept: where files are written and under which Go
+		// import path a proto file (the definition's own, or a well-known one) is known must not make the
+		// two plugins part ways
+		params := []struct{ label, p string }{{"", ""}}
+		if c.Thorough() || i%3 == int(c.Seed)%3 {
+			params = append(params, struct{ label, p string }{"/param=paths-source-relative", "paths=source_relative"},
+				struct{ label, p string }{"/param=M-timestamp-to-ptypes", "Mgoogle/protobuf/timestamp.proto=github.com/golang/protobuf/ptypes/timestamp"},
+				struct{ label, p string }{"/param=M-own-file-elsewhere", "M" + rc.Files[len(rc.Files)-1].Path + "=example.com/elsewhere/pkg;pkgx"},
+				struct{ label, p string }{"/param=module", "module=lab"})
 		}
-		both := 0
-		for _, n := range h.Names() {
-			hc := h.Files[n]
-			cc, ok := cl.Files[n]
-			if !ok {
-				// server-only files are fine; codec files need a counterpart
-				isCodec := !strings.HasSuffix(n, "_http.pb.go") && !strings.HasSuffix(n, "_http_binding.pb.go") && !strings.HasSuffix(n, "_http_config.pb.go") &&
-					!strings.HasSuffix(n, "_http_mock.pb.go") && !strings.HasSuffix(n, "_error_impl.pb.go")
-				if isCodec && !strings.HasSuffix(n, "_unwrap.pb.go") {
-					c.R.Violate(caseID, "codec-file-missing-in-client", suffixOf(n), map[string]any{"protos": protos, "file": n, "client_files": cl.Names()})
+		for _, pr := range params {
+			caseID := "interchange/" + rc.ID + pr.label
+			if !c.Want(caseID) {
+				continue
+			}
+			if pr.p != "" {
+				if req, err = spec.Request(rc.Files, rc.Gen, pr.p); err != nil {
+					continue
+				}
+			}
+			h := c.TB.Run("go-http", req, plugin.RunOpt{})
+			cl := c.TB.Run("go-client", req, plugin.RunOpt{})
+			c.R.Eval(2)
+			if !h.OK() || !cl.OK() {
+				if h.OK() != cl.OK() {
+					c.R.Violate(caseID, "plugins-differ", "one plugin refuses", map[string]any{"protos": protos, "http_error": h.Error + h.Crash, "client_error": cl.Error + cl.Crash})
+				} else {
+					c.R.Inconclusive(caseID, "both-refuse")
 				}
 				continue
 			}
-			both++
-			a, b := stripHeader(hc), stripHeader(cc)
-			if a != b {
-				d := firstDiff(a, b)
-				c.R.Violate(caseID, "same-name-files-differ", suffixOf(n), map[string]any{"protos": protos, "file": n, "offset": d, "go_http": around(a, d), "go_client": around(b, d)})
+			both := 0
+			for _, n := range h.Names() {
+				hc := h.Files[n]
+				cc, ok := cl.Files[n]
+				if !ok {
+					// server-only files are fine; codec files need a counterpart
+					isCodec := !strings.HasSuffix(n, "_http.pb.go") && !strings.HasSuffix(n, "_http_binding.pb.go") && !strings.HasSuffix(n, "_http_config.pb.go") &&
+						!strings.HasSuffix(n, "_http_mock.pb.go") && !strings.HasSuffix(n, "_error_impl.pb.go")
+					if isCodec && !strings.HasSuffix(n, "_unwrap.pb.go") {
+						c.R.Violate(caseID, "codec-file-missing-in-client", suffixOf(n), map[string]any{"protos": protos, "file": n, "client_files": cl.Names()})
+					}
+					continue
+				}
+				both++
+				a, b := stripHeader(hc), stripHeader(cc)
+				if a != b {
+					d := firstDiff(a, b)
+					c.R.Violate(caseID, "same-name-files-differ", suffixOf(n), map[string]any{"protos": protos, "file": n, "offset": d, "go_http": around(a, d), "go_client": around(b, d)})
+				}
 			}
-		}
-		c.R.Count("same_name_files_compared", both)
-		c.R.Decided(caseID)
-		if rc.ID == "multifile/package" {
-			c.R.Sample(map[string]any{"case": caseID, "go_http_files": h.Names(), "go_client_files": cl.Names(), "same_name_files": both})
+			c.R.Count("same_name_files_compared", both)
+			c.R.Decided(caseID)
+			if rc.ID == "multifile/package" && pr.p == "" {
+				c.R.Sample(map[string]any{"case": caseID, "go_http_files": h.Names(), "go_client_files": cl.Names(), "same_name_files": both})
+			}
 		}
 	})
 	// L2: behaviour of a client-only package vs server-only package
